@@ -532,9 +532,12 @@ func c11Run(ctx *rt.Ctx) []*rt.Violation {
 		if v := c11Raw(w, ctx); v != nil {
 			vs = append(vs, v)
 		}
+		if v := c11Grpc(w, ctx); v != nil {
+			vs = append(vs, v)
+		}
 		w.close()
 	}
-	ctx.Cov.Note("rule", "texts = all trees (depth 1 quick / 2 thorough, arity<=2) over leaves {a=\"1\", a=$1, b=$2, a=$3, b=$1} (repeated, out of order, gaps), with and without a group-by column; argument lists = all lists of length 0..4 over {\"1\",\"2\",quote+newline,é,int 7}; ReplacePlaceholders compared with a reference substitution and its input with a pristine clone; through database/sql every text x list on the direct Query path and the Prepare path, and every sequence (length 2 quick / 3 thorough) of executions of one prepared statement / one handle over all exact-length lists plus two too-short ones: rows must equal the literal query's rows (model), too few arguments must be an error; plus texts with a placeholder below 40 nested NOT / AND levels; plus 4 raw texts with leading-zero placeholder numbers ($01, $08, $010, $0010) bound to 10 arguments on both paths")
+	ctx.Cov.Note("rule", "texts = all trees (depth 1 quick / 2 thorough, arity<=2) over leaves {a=\"1\", a=$1, b=$2, a=$3, b=$1} (repeated, out of order, gaps), with and without a group-by column; argument lists = all lists of length 0..4 over {\"1\",\"2\",quote+newline,é,int 7}; ReplacePlaceholders compared with a reference substitution and its input with a pristine clone; through database/sql every text x list on the direct Query path and the Prepare path, and every sequence (length 2 quick / 3 thorough) of executions of one prepared statement / one handle over all exact-length lists plus two too-short ones: rows must equal the literal query's rows (model), too few arguments must be an error; plus texts with a placeholder below 40 nested NOT / AND levels; plus 4 raw texts with leading-zero placeholder numbers ($01, $08, $010, $0010) bound to 10 arguments on both paths; plus, on a grpc:// handle served by an in-process query service over the library, every sequence of <=3 executions of one prepared statement (3 texts x 3 argument lists) in which each execution is either answered or failed by the service (an environment answer): answered executions must equal the file handle's rows, failed ones must be errors")
 	return vs
 }
 
@@ -545,6 +548,9 @@ func c11Replay(ctx *rt.Ctx, v *rt.Violation) *rt.Violation {
 	}
 	w := newC11World(ctx)
 	defer w.close()
+	if strings.HasPrefix(c.Raw, "grpc:") {
+		return c11Grpc(w, ctx)
+	}
 	if c.Raw != "" {
 		return c11Raw(w, ctx)
 	}
